@@ -40,6 +40,30 @@ theorem charToAlphabetIndex_isSome (b : Nat) :
     simp [h, h2]
   · by_cases h3 : 65 ≤ b ∧ b ≤ 90 <;> simp [h, h3]
 
+/-- the parser's acceptance of a DEFtype range does not depend on the case of the two letters -/
+theorem rangeAccepted_fold (a b : Nat) : rangeAccepted (upper a) (upper b) = rangeAccepted a b := by
+  simp [rangeAccepted, upper_idem]
+
+/-- a DEFtype range `a-b` is accepted iff `a` does not come after `b` in the alphabet (whatever their case):
+exactly the ranges for which `fillRanges` has something to fill -/
+theorem rangeAccepted_iff_index (a b i j : Nat) (ha : charToAlphabetIndex a = some i)
+    (hb : charToAlphabetIndex b = some j) : rangeAccepted a b = true ↔ i ≤ j := by
+  unfold charToAlphabetIndex isAsciiUpper at ha hb
+  simp only [] at ha hb
+  split at ha
+  · next hua =>
+    split at hb
+    · next hub =>
+      have h1 := of_decide_eq_true hua
+      have h2 := of_decide_eq_true hub
+      injection ha with ha; injection hb with hb
+      unfold rangeAccepted
+      rw [decide_eq_true_iff]; omega
+    · cases hb
+  · cases ha
+
+example : rangeAccepted 97 90 = true ∧ rangeAccepted 90 97 = false ∧ rangeAccepted 65 97 = true := by decide
+
 theorem fold_idem (s : Ident) : fold (fold s) = fold s := by
   simp [fold, List.map_map, Function.comp_def, upper_idem]
 
@@ -271,10 +295,8 @@ theorem extended_unique_param (c c' : Ctx) (k : Key) (T : Q) (m : Mode)
   unfold convParam at h
   by_cases hs : c.hasSub k = true
   · simp [hs] at h
-  · cases hf : c.funcQ k with
-    | some fq => simp [hs, hf] at h
-    | none =>
-    simp only [hs, hf] at h
+  · simp only [hs] at h
+    split at h; · cases h
     split at h; · cases h
     split at h; · cases h
     have hc := declare_extended c c' k T false h
@@ -517,12 +539,12 @@ def nma : Ident := [97]
 example :
     runScript [.stmt (.assign ⟨nmA, none⟩ false 1), .stmt (.print ⟨nma, some .sng⟩), .stmt (.print ⟨nmA, some .int⟩)]
       = .accepted [.var [65] .sng .global, .var [65] .sng .global, .var [65] .int .global]
-          (some [⟨.tag 1, .sng⟩, ⟨.default, .int⟩]) := by decide
+          (some [⟨.tag 1, .sng⟩, ⟨.default, .int⟩]) true := by decide
 
 /-- `DEFINT A-C : A = 1 : PRINT A%` : now bare is INTEGER -/
 example :
     runScript [.defType .int [(65, 67)], .stmt (.assign ⟨nmA, none⟩ false 1), .stmt (.print ⟨nmA, some .int⟩)]
-      = .accepted [.var [65] .int .global, .var [65] .int .global] (some [⟨.tag 1, .int⟩, ]) := by decide
+      = .accepted [.var [65] .int .global, .var [65] .int .global] (some [⟨.tag 1, .int⟩, ]) true := by decide
 
 /-- `DIM A AS INTEGER : PRINT A$` is rejected with the coded error -/
 example :
@@ -533,12 +555,12 @@ example :
 with `DIM SHARED A` it prints the global's value -/
 example :
     runScript [.stmt (.assign ⟨nmA, none⟩ false 1), .sub [83] [] [.print ⟨nmA, none⟩], .stmt (.callSub [83] [])]
-      = .accepted [.var [65] .sng .global, .var [65] .sng (.sub [83])] (some [⟨.default, .sng⟩]) := by decide
+      = .accepted [.var [65] .sng .global, .var [65] .sng (.sub [83])] (some [⟨.default, .sng⟩]) true := by decide
 
 example :
     runScript [.stmt (.dim true nmA .bare), .stmt (.assign ⟨nmA, none⟩ false 1),
                .sub [83] [] [.print ⟨nmA, none⟩], .stmt (.callSub [83] [])]
-      = .accepted [.var [65] .sng .global, .var [65] .sng .global] (some [⟨.tag 1, .sng⟩]) := by decide
+      = .accepted [.var [65] .sng .global, .var [65] .sng .global] (some [⟨.tag 1, .sng⟩]) true := by decide
 
 /-- the hypotheses of `bare_is_default_type` / `five_suffixes_distinct` hold in the initial context -/
 def ctx0 : Ctx := { deft := DefTable.init, funcs := [], subs := [], globals := [], locals := [], scope := .global }
